@@ -37,7 +37,9 @@ FirstBelow(reqs, i, nb, mbits, m) ==
 Checks(ev) ==
   LET o == ev.op IN
   CASE o = "enc.encode" -> LET P == AffPt(ev.g, ev.a) IN
-         << <<"value", ev.out.bytes = Encode(ev.g, P, ev.compressed = 1)>>, <<"no-overrun", ev.out.guard = 1>> >>
+         << <<"value", ev.out.bytes = Encode(ev.g, P, ev.compressed = 1)>>, <<"no-overrun", ev.out.guard = 1>>,
+            \* the identity as a computation yields it (P + (-P), converted into an affine object that held another point) has the same encoding
+            <<"value-of-computed-identity", "computed" \notin DOMAIN ev.out \/ ev.out.computed = Encode(ev.g, P, ev.compressed = 1)>> >>
     [] o = "enc.decode" ->
          LET g == ev.g  comp == ev.compressed = 1
              d == DecodeChecked(g, ev.bytes, comp)
@@ -64,6 +66,8 @@ Checks(ev) ==
     [] o \in {"rand.zp", "rand.zpstar"} ->
          LET f == FirstBelow(ev.out.reqs, 1, 32, 255, RMod) IN
          << <<"range", Lt(Norm(ev.out.r), RMod)>>,
+            \* the same stream served again straight away gives the same scalar: no state is carried from one call to the next
+            <<"function-of-the-stream", "again" \notin DOMAIN ev.out \/ ev.out.again = 1>>,
             <<"diag.protocol", f[1] = "some" /\ f[2] = Norm(ev.out.r) /\ f[3] = Len(ev.out.reqs)>> >>
     [] o = "rand.fq" ->
          LET f == FirstBelow(ev.out.reqs, 1, 48, 381, QMod) IN
